@@ -115,6 +115,8 @@ type c18Ledger struct {
 func c18Key(owner, svc string) string { return owner + "/" + svc }
 
 func runC18Trial(run *ev.Run, sp *c18Spec, seed int64) {
+	startLagProbe()
+	trialStart := time.Now()
 	c := mesh.DefaultConsts()
 	c.RouteUpdate = 300 * time.Millisecond
 	c.ServiceAd = 800 * time.Millisecond
@@ -434,7 +436,11 @@ func runC18Trial(run *ev.Run, sp *c18Spec, seed int64) {
 			}
 			classes[d.Class] = true
 		}
-		if len(classes) > 0 {
+		if st, mx, tot := starved(trialStart); st && len(classes) > 0 {
+			// watchdog, not a verdict: this process itself was starved of CPU while the trial ran
+			run.Count("verdicts_withheld_because_the_process_was_starved", 1)
+			run.Inconclusive(fmt.Sprintf("C18 trial %d: tables differ from the ledger, but this process was starved while the trial ran (largest scheduling delay %v, %v in total): no verdict", sp.Idx, mx.Round(time.Millisecond), tot.Round(time.Millisecond)))
+		} else if len(classes) > 0 {
 			cl := []string{}
 			for c := range classes {
 				cl = append(cl, c)
